@@ -79,7 +79,7 @@ func VerifC02SetSpecialStr() {
 	err := p.setSpecial(idx, v)
 	verifReach("returned")
 	verifAssert(verifIsAwkError(err) || err != nil, "setSpecial must return nil or an error")
-	if err != nil && (idx == ast.V_RS || idx == ast.V_FS) {
+	if err != nil && (idx == ast.V_RS || idx == ast.V_FS) && len(v.s) <= 2 {
 		// a rejected assignment must leave the interpreter usable (a host may catch the error and run again on
 		// the same Interpreter): read a record and split it into fields with whatever FS / RS are in force now
 		verifReach("rejected")
@@ -259,11 +259,52 @@ func VerifC02Formats() {
 	_, err := p.sprintf(format, args)
 	verifReach("returned")
 	verifAssert(verifIsAwkError(err), "sprintf returned an error that is not an *interp.Error")
+	// the same format again with fewer arguments (formats are cached per interpreter): an error or a result
+	fewer := args[:verifIntRange(0, len(args))]
+	_, err2 := p.sprintf(format, fewer)
+	verifAssert(verifIsAwkError(err2), "sprintf returned an error that is not an *interp.Error")
+	if err == nil && len(fewer) == len(args) {
+		verifAssert(err2 == nil, "the same format with the same arguments failed the second time")
+	}
+}
+
+// RS changed while a reader opened under the old RS still has records: the next read returns, never panics
+func VerifC02RSSwitch() {
+	p := &interp{fieldSep: " ", savedFieldSep: " ", recordSep: "\n", convertFormat: "%.6g", outputFieldSep: " "}
+	first := []string{"X+", "\n", "", "ab|c", ";"}[verifIntRange(0, 4)]
+	verifAssert(p.setSpecial(ast.V_RS, str(first)) == nil, "RS rejected")
+	sc := p.newScanner(strings.NewReader("aXXb\n\nc;dXe\n"), make([]byte, 64))
+	sc.Scan()
+	second := verifString(verifIntRange(0, 1)) // longer values are regexes: covered by the fixed list and by VerifC02SetSpecialStr
+	if verifIntRange(0, 1) == 0 {
+		second = []string{"\xff", "\xc3", "[[", "\xe4\xb8\xad", "X+", "a|bc", ""}[verifIntRange(0, 6)]
+	}
+	err := p.setSpecial(ast.V_RS, str(second))
+	verifAssert(verifIsAwkError(err), "setSpecial returned a foreign error")
+	n := 0
+	for sc.Scan() && n < 20 {
+		n++
+	}
+	verifReach("read-on")
+	// a new reader under the new RS works too
+	sc2 := p.newScanner(strings.NewReader("p q\n"), make([]byte, 64))
+	sc2.Scan()
 }
 
 // more live local arrays than any preallocated table holds: deep recursion with a fresh local array per frame
 func VerifC02DeepLocalArrays() {
 	depth := []int{3, 99, 100, 101, 150}[verifIntRange(0, 4)]
+	if verifIntRange(0, 1) == 1 {
+		// scalar locals only: the value stack grows inside the call set-up
+		d := []int{20, 33, 34, 50, 70}[verifIntRange(0, 4)]
+		prog := verifParse("function f(n, a, b, c) { a = n; b = n + 1; c = n + 2; if (n < " + verifItoa(d) + ") return f(n + 1) + a + b - c + 1; return a + b + c }\nBEGIN { r = f(0) }")
+		p := newInterp(prog)
+		err := p.execute(prog.Compiled.Begin)
+		verifAssert(err == nil && p.sp == 0, "deep recursion with scalar locals failed or left the stack unbalanced")
+		// f(d) = 3d+3, each outer frame adds a + b - c + 1 = n
+		verifAssert(verifGlobal(p, "r").n == float64(3*d+3+d*(d-1)/2), "locals of an outer frame were disturbed by the frames below it")
+		return
+	}
 	prog := verifParse("function f(n, loc) { loc[n] = n; if (n < " + verifItoa(depth) + ") return f(n + 1) + loc[n]; return loc[n] }\nBEGIN { r = f(0) }")
 	p := newInterp(prog)
 	err := p.execute(prog.Compiled.Begin)
